@@ -93,6 +93,8 @@ def C07(ctx):
     ctx.run(ctx.export('FamilyX(p, {"missing-under-fieldsof-parent", "missing-behind-bind", "missing-behind-bind-2", "two-fieldsof-items"})'), nontrivial=lambda c: True, runtime=False)
     # cycles through unnamed composite types, and a cycle behind an interface the search meets first
     ctx.run(ctx.export('FamilyX(p, {"cycle-through-pointer-types", "cycle-behind-bound-interface"})'), nontrivial=lambda c: True, runtime=False, check=True)
+    # every command terminates: show on sets with bindings whose interface is consumed inside the set
+    ctx.run(ctx.export('FamilyB(p)', extends='WireShow', caseop='CaseShow', pre_sample=(60 if ctx.quick else None)), nontrivial=lambda c: True, runtime=False, check=True, show=True)
     sc = ctx.export('FamilyLattice(p, {6, 10, 20, 40})') + ctx.export('FamilyChain(p, {50, 150})')
     # one package per invocation, with the verif hooks' loop counters: iterations of the cycle search and of the planner
     # must stay within WorkBound (quadratic in nodes + edges, far below the number of paths); without counters the timeout is the criterion
@@ -216,7 +218,7 @@ def C08(ctx):
                      'plus every program of family G passed directly; non-trivial = WireSem: UnusedDirect # {} or an indirectly used item; '
                      'judge: unused => rejected with an unused diagnostic and no output; contributing => accepted; partially used FieldsOf lists are free')
     nt = lambda c: 'unused' in reasons(c) or c['key'].startswith('U/indirect')
-    ucases = ctx.export('FamilyU(p)') + ctx.export('FamilyX(p, {"two-fieldsof-second-unused", "set-used-by-first-injector-only", "two-fieldsof-items", "bind-after-concrete", "inline-set-partly-used", "inline-set-unused", "inline-set-in-named-set", "inline-set-twice", "struct-both-forms-plus-superfluous", "same-name-packages-one-unused"})')
+    ucases = ctx.export('FamilyU(p)') + ctx.export('FamilyX(p, {"two-fieldsof-second-unused", "set-used-by-first-injector-only", "two-fieldsof-items", "bind-after-concrete", "inline-set-partly-used", "inline-set-unused", "inline-set-in-named-set", "inline-set-twice", "struct-both-forms-plus-superfluous", "same-name-packages-one-unused", "two-files-first-unused"})')
     ctx.design_analyze(ucases, label='family U ')
     ctx.run(ucases, nontrivial=nt, runtime=True, switches=W_ONLY)
     g = [c for c in ctx.export(G(3, 'all', ('dir',))) if 'unused' in reasons(c) or verdict(c) == 'yes']
@@ -238,7 +240,7 @@ def C09(ctx):
     ctx.res.cov['exhaustive'] = True
     ctx.run(cases, runtime=False, check=False)
     # a variadic provider whose fixed parameter has the slice type of the variadic one; zero-call injectors declaring results they do not need
-    ctx.run(ctx.export('FamilyX(p, {"variadic-dup-param", "arg-returned-directly-full-sig", "variadic-err-provider", "multi-name-var-sets-badsig"})'), nontrivial=lambda c: True, runtime=True, check=True, switches=ALL)
+    ctx.run(ctx.export('FamilyX(p, {"variadic-dup-param", "arg-returned-directly-full-sig", "variadic-err-provider", "multi-name-var-sets-badsig", "structlit-dup-fields"})'), nontrivial=lambda c: True, runtime=True, check=True, switches=ALL)
 
 
 # ------------------------------------------------------------------ C10
@@ -257,7 +259,7 @@ def C10(ctx):
         w = json.dumps(c['expect'][0]['wiring'], sort_keys=True)
         if byb.setdefault(b, w) != w:
             raise Broken('WireSem wiring differs between regroupings of base ' + b)
-    cases += ctx.export('FamilyX(p, {"same-name-packages", "two-fieldsof-items", "bind-after-concrete", "two-unnamed-values", "multi-name-var-sets", "same-named-sets-two-packages", "inline-set-partly-used", "inline-set-in-named-set", "sets-in-injector-file"})')
+    cases += ctx.export('FamilyX(p, {"same-name-packages", "two-fieldsof-items", "bind-after-concrete", "two-unnamed-values", "multi-name-var-sets", "same-named-sets-two-packages", "inline-set-partly-used", "inline-set-in-named-set", "sets-in-injector-file", "value-in-shared-set"})')
     ctx.design_analyze(cases, limit=250 if ctx.quick else 1500, label='family M ')
     ctx.run(cases, nontrivial=lambda c: c['prog']['sets'] != [], runtime=True, switches=W_ONLY)
 
@@ -355,7 +357,8 @@ def C13(ctx):
     ctx.res.cov['exhaustive'] = ctx.quick
     ctx.run(cases, runtime=False, notes=True, build=True)
     # value variables are shared per expression *node*, never per expression text or type
-    ctx.run(ctx.export('FamilyX(p, {"same-text-values-two-packages", "two-unnamed-values"})'), nontrivial=lambda c: True, runtime=True, switches=ALL)
+    ctx.run(ctx.export('FamilyX(p, {"same-text-values-two-packages", "two-unnamed-values", "value-in-shared-set"})')
+            + ctx.export('FamilyNOne(p, "T4", {"U8ber", "A8rger", "Err", "String"})', extends='WireNames'), nontrivial=lambda c: True, runtime=True, switches=ALL)
 
 
 def names_model(ctx):
